@@ -18,7 +18,7 @@ from props.refprops import all_findings
 PID = "C18"
 THEOREMS = {"CbProps.C18": ["CbProps.C18." + t for t in [
     "import_exact", "hidden_not_visible", "import_idempotent", "lookup_after_imports",
-    "imports_order_and_repetition_irrelevant"]]}
+    "imports_order_and_repetition_irrelevant", "import_never_hides"]]}
 
 KINDS = ["func", "const", "struct", "enum", "typedef", "gvar"]
 DIRS = ["", "a", "a.b", "lib", "lib.x.y"]
